@@ -218,8 +218,10 @@ func runLedgerWorkload(r *ev.Run, st *Stack, g *rng.R, caseID string, cfg c01Cfg
 				defer swg.Done()
 				c01sender(func() {
 					for rep := 0; rep < cfg.repeats; rep++ {
-						for li, L := range lengths {
-							if (li+rep)%cfg.senders != w {
+						// the shortest payloads once more at the end: by then every transport buffer has been used and recycled
+						ls := append(append([]int{}, lengths...), 0, 1, 0, 2, 0)
+						for li, L := range ls {
+							if li < len(lengths) && (li+rep)%cfg.senders != w {
 								continue
 							}
 							for dst := 0; dst < n; dst++ {
